@@ -251,6 +251,7 @@ enum Op {
 }
 
 fn history_case(ch: &mut Choices<'_>, st: &mut Stats) -> CaseResult {
+    let mut arena = Arena::new();
     // scheme: one field per list type, SetList for a generated subset (>=1), Always/Never for the rest
     let mut recipe = Recipe::empty();
     for (i, t) in list_types().iter().enumerate() {
@@ -335,7 +336,7 @@ fn history_case(ch: &mut Choices<'_>, st: &mut Stats) -> CaseResult {
             }
             Op::RoundTrip(how) => {
                 let js = serde_json::to_string(&ec).map_err(|e| fail("serialize-error", e.to_string()))?;
-                let js: &'static str = Box::leak(js.into_boxed_str());
+                let js: &'static str = arena.keep_str(js);
                 let mut fresh: ExecutionContext<'static> = ExecutionContext::new(&scheme);
                 let r = catch(|| match how {
                     0 => fresh.deserialize(&mut serde_json::Deserializer::from_str(js)).map_err(|e| e.to_string()),
